@@ -115,6 +115,14 @@ def check(ctx: Ctx, ev: Evidence) -> list[Finding]:
                 for t in (n.targets if isinstance(n, ast.Assign) else [n.target]):
                     if isinstance(t, ast.Subscript) and isinstance(t.value, ast.Name) and t.value.id not in local_names and (fi.module, t.value.id) in module_containers:
                         mutated[(fi.module, t.value.id)] = f"{fi.qualname} at {loc(fi, n)}"
+        # aliasing: a module-level container stored (un-copied) into an attribute is one object shared by every instance,
+        # whichever of them mutates it later through the attribute
+        for n in ast.walk(fi.node):
+            if isinstance(n, (ast.Assign, ast.AnnAssign)) and isinstance(getattr(n, "value", None), ast.Name):
+                nm = n.value.id
+                tg = n.targets if isinstance(n, ast.Assign) else [n.target]
+                if nm not in local_names and (fi.module, nm) in module_containers and any(isinstance(t, ast.Attribute) for t in tg):
+                    mutated[(fi.module, nm)] = f"every instance through the alias `{ast.unparse([t for t in tg if isinstance(t, ast.Attribute)][0])}` bound in {fi.qualname} at {loc(fi, n)}"
         _ = globs
         key = f"{fi.qualname}"
         ev.inst("C11-R3", key, "violation" if bad_store else "ok", loc(fi, fi.node))
@@ -125,7 +133,7 @@ def check(ctx: Ctx, ev: Evidence) -> list[Finding]:
         bad = mutated.get((m, k))
         ev.inst("C11-R1d", f"{m}.{k}", "violation" if bad else "ok", f"{prog.modules[m].path}:{v.lineno}")
         if bad:
-            out.append(Finding("C11-R1d", f"{m}.{k}", f"module-level container {k} is mutated by {bad}: state shared across handler instances", f"{prog.modules[m].path}:{v.lineno}"))
+            out.append(Finding("C11-R1d", f"{m}.{k}", f"module-level container {k} is shared/mutated by {bad}: state shared across handler instances", f"{prog.modules[m].path}:{v.lineno}"))
     if not module_containers:
         for mi in prog.modules.values():
             ev.inst("C11-R1d", f"{mi.name} | no module-level containers", "ok")
